@@ -133,6 +133,7 @@ def _table(t):
 def impl_meta(payload):
     """Base run and metamorphic variants of the real calc_power for every case."""
     import warnings
+    import numba
     import numpy as np
     warnings.simplefilter('ignore')
     from abacusnbody.analysis.power_spectrum import calc_power
@@ -148,6 +149,7 @@ def impl_meta(payload):
                 k = dict(kw)
                 k.update(extra)
                 L_ = k.pop('Lbox')
+                numba.set_num_threads((16, 1, 2, 5)[(c['seed'] + nthread) % 4])   # entry thread count left by earlier numba code
                 return _table(calc_power(p.copy(), L_, w=None if ww is None else ww.copy(), nthread=nthread, **k))
             rec['base'] = run(pos, w, c['nthread'])
             perm = np.random.RandomState(c['seed'] + 7).permutation(len(pos))
